@@ -19,26 +19,18 @@ Proof. exists red_clash. split; vm_compute; reflexivity. Qed.
 Theorem funsym_pow_arity_crash : tree_cse_lib [] [EFunSym name_pow [sx]] = ErrOOB 1 1.
 Proof. vm_compute. reflexivity. Qed.
 
-(* (3) a Piecewise condition seen twice is replaced by a Symbol and wrapped in Eq(x0, True);
-   substituting back gives Eq(True, x < y), not the condition x < y *)
+(* (3) FIXED in the library (fix: "cse replaced repeated Boolean subexpressions by symbols"): a
+   Piecewise condition seen twice used to be replaced by a Symbol and wrapped in Eq(x0, True), so
+   that substituting back gave Eq(True, x < y) instead of the condition x < y.  find_repeated no
+   longer marks Booleans for elimination; on the former witness the model (as the library) now
+   returns no replacement and the inputs themselves, and the proved checker accepts. *)
 Definition cond_lt : expr := EF2 TC_StrictLessThan sx sy.
 Definition wit_pw : list expr :=
   [EPw [(ESym [97], cond_lt); (ESym [98], EBool true)]; EPw [(ESym [99], cond_lt); (ESym [100], EBool true)]].
-Theorem piecewise_condition_refuted :
-  exists nr red back,
-    tree_cse_lib [] wit_pw = Ok (map (fun p => (ESym (fst p), snd p)) nr, red) /\
-    map (backsubst lib_ctors nr) red = map (@Ok expr) back /\
-    forall2b expr_eqb back wit_pw = false /\
-    check_cse wit_pw (map (fun p => (ESym (fst p), snd p)) nr) red back = false.
-Proof.
-  exists [(sym_name 0, cond_lt)].
-  exists [EPw [(ESym [97], EF2 TC_Equality (sym_x 0) (EBool true)); (ESym [98], EBool true)];
-          EPw [(ESym [99], EF2 TC_Equality (sym_x 0) (EBool true)); (ESym [100], EBool true)]].
-  exists [EPw [(ESym [97], EF2 TC_Equality (EBool true) cond_lt); (ESym [98], EBool true)];
-          EPw [(ESym [99], EF2 TC_Equality (EBool true) cond_lt); (ESym [100], EBool true)]].
-  split; [vm_compute; reflexivity|]. split; [vm_compute; reflexivity|]. split; vm_compute; reflexivity.
-Qed.
+Theorem piecewise_condition_fixed :
+  tree_cse_lib [] wit_pw = Ok ([], wit_pw) /\ check_cse wit_pw [] wit_pw wit_pw = true.
+Proof. split; vm_compute; reflexivity. Qed.
 
 Example witnesses_outside_guards :
-  guard_reserved wit_clash = true /\ guard_piecewise wit_pw = true.
+  guard_reserved wit_clash = true /\ cse_guard wit_clash = true.
 Proof. vm_compute. split; reflexivity. Qed.
